@@ -28,6 +28,9 @@ type c16Op struct {
 	P    int    `json:"p,omitempty"`    // issue: index into the pool
 	I    int    `json:"i,omitempty"`    // fail/succeed: k mod len(in flight); -1 = most recent
 	Seed uint32 `json:"seed,omitempty"` // issue: insertion order of the tag map
+	// issue of a create: the caller passes its shared leading type option plus a fresh
+	// option (node controller style) instead of one fresh option
+	Split bool `json:"split,omitempty"`
 }
 
 type c16MachScenario struct {
@@ -47,6 +50,7 @@ func c16GenMach(t *rapid.T) c16MachScenario {
 			op.Op = c16OpIssue
 			op.P = rapid.IntRange(0, len(s.Pool)-1).Draw(t, "p")
 			op.Seed = rapid.Uint32().Draw(t, "seed")
+			op.Split = rapid.IntRange(0, 2).Draw(t, "split") == 2
 			issues[op.P]++
 		case w < 85:
 			op.Op = c16OpFail
@@ -61,7 +65,7 @@ func c16GenMach(t *rapid.T) c16MachScenario {
 	for p := range s.Pool {
 		for ; issues[p] < c16MinIssues; issues[p]++ {
 			s.Ops = append(s.Ops,
-				c16Op{Op: c16OpIssue, P: p, Seed: rapid.Uint32().Draw(t, "seed")},
+				c16Op{Op: c16OpIssue, P: p, Seed: rapid.Uint32().Draw(t, "seed"), Split: rapid.IntRange(0, 2).Draw(t, "split") == 2},
 				c16Op{Op: c16OpFail, I: -1})
 		}
 	}
@@ -77,20 +81,25 @@ type c16Inflight struct {
 func c16RunMach(c *vt.Ctx, s c16MachScenario) {
 	c16Setup()
 	g := NewIdempotentKeyGenerator()
+	cl := c16NewCaller()
 	m := c16NewModel()
 	c16PoolLabels(c, s.Pool)
+	sawSplit := false
 	var live []c16Inflight
 	nextID := 0
 	for step, op := range s.Ops {
 		switch op.Op {
 		case c16OpIssue:
 			p := s.Pool[op.P%len(s.Pool)]
-			tok, rb, err := c16Issue(g, p, op.Seed)
+			tok, rb, err := c16IssueFrom(g, cl, op.Split, p, op.Seed)
 			if err != nil {
 				c.Inconclusive(fmt.Sprintf("builder rejected parameter set %s: %v", p.key(), err)) // not this property's business
 			}
+			if op.Split && p.Kind <= c16CreateEFLO {
+				sawSplit = true
+			}
 			nextID++
-			c.Trace("step %d: issue #%d pool[%d] %s order=%v -> token %s = %s", step, nextID, op.P, p.key(), c16Order(len(p.Tags), op.Seed), m.name(tok), tok)
+			c.Trace("step %d: issue #%d pool[%d] %s order=%v split=%v -> token %s = %s", step, nextID, op.P, p.key(), c16Order(len(p.Tags), op.Seed), op.Split, m.name(tok), tok)
 			if msg := m.issue(p, tok, nextID); msg != "" {
 				c.Fatalf("step %d: %s", step, msg)
 			}
@@ -137,6 +146,9 @@ func c16RunMach(c *vt.Ctx, s c16MachScenario) {
 				c.Fatalf("drain: %s", msg)
 			}
 		}
+	}
+	if sawSplit {
+		c.Label("create from shared leading option + fresh option")
 	}
 	m.labels(c)
 }
